@@ -262,7 +262,7 @@ fn main() {
     rep.note("assumptions", json!(["inputs without exact ties (generic float positions); residual near-ties are recognised by the reference objective and counted, capped at 0.1% of compared calls"]));
     let ctl = if cli.small { None } else { Some(Controller::install()) };
     let wd = if cli.small { None } else { Some(Watchdog::start(&cli, "C05", ctl.clone())) };
-    let n = cli.cases(96, 1500);
+    let n = cli.cases(192, 1500);
     for idx in cli.index_range(n) {
         let mut rng = Rng::for_case(cli.seed, cli.shard, idx);
         let kind = match idx % 6 {
@@ -313,7 +313,7 @@ fn main() {
         let w = WorldOpts {
             scenes: if long_gallery { 1 } else if multi { 2 + rng.usize(3) } else { 1 + rng.usize(2) },
             same_region: rng.chance(0.3),
-            preset: if wide || long_gallery { "random" } else { *rng.pick(&["crowd", "convoy", "crossing", "random", "lookalikes"]) },
+            preset: if wide || long_gallery { "random" } else if kind.is_visual() && rng.chance(0.3) { "pack" } else { *rng.pick(&["crowd", "convoy", "crossing", "random", "lookalikes", "pack"]) },
             rotated: rng.chance(0.2),
             features: kind.is_visual(),
             feat_dim: 4,
@@ -328,6 +328,7 @@ fn main() {
         };
         let h = HistOpts { len: if cli.small { 3 } else if long_gallery { 600 } else if wide { 6 } else { 20 + rng.usize(31) }, lifecycle_ops: lifecycle, clear_wasted: false, auto_waste_ops: false, batches: false, empty_calls: true };
         let ops = if long_gallery { long_gallery_ops(&mut rng, 16, 285) } else { gen_history(&mut rng, &w, &h) };
+        rep.count(&format!("histories/preset/{}/{}", w.preset, if kind.is_visual() { "visual" } else { "positional" }));
         // batch kinds, 40% of the histories: consecutive calls for different scenes travel in one multi-scene batch
         let groups: Option<Vec<usize>> = if multi {
             let mut g = vec![usize::MAX; ops.len()];
@@ -444,9 +445,16 @@ fn main() {
                                 let ja = judge_call(&cfg, *scene, base.epochs[k], dets, a, pre_k);
                                 let jb = judge_call(&cfg, *scene, base.epochs[k], dets, &bt, pre_k);
                                 match (ja, jb) {
-                                    (Judgement::Valid, Judgement::Valid) | (Judgement::Undecidable(_), _) | (_, Judgement::Undecidable(_)) => rep.count("tie_divergences"),
+                                    (Judgement::Valid, Judgement::Valid) => {
+                                        rep.count("tie_divergences");
+                                        rep.count("tie_divergences/both-outcomes-valid");
+                                    }
                                     (Judgement::Invalid(sig, d), _) => rep.violation(&format!("C05/{:?}/grouping-differs/reference-run-invalid/{}", kind, sig), idx, json!({"ctx": c, "detail": d})),
                                     (_, Judgement::Invalid(sig, d)) => rep.violation(&format!("C05/{:?}/grouping-differs/variant-outcome-invalid/{}", kind, sig), idx, json!({"ctx": c, "detail": d})),
+                                    (Judgement::Undecidable(w), _) | (_, Judgement::Undecidable(w)) => {
+                                        rep.count("tie_divergences");
+                                        rep.count(&format!("tie_divergences/undecidable:{}", w));
+                                    }
                                 }
                             }
                             continue 'variants;
